@@ -54,6 +54,12 @@ def obligations():
         o.append(Obl(f"C02.{fmt}.load_frame", "xh", "harness.c02", f"{fmt}_load_frame", e, "total<=5, every frame, every non-empty atom subset",
                      "load_<fmt>(frame=i, atom_indices=) is frame i restricted to the atoms", 150,
                      quick_pre="total <= 3", timeout_thorough=1200))
+    o += [
+        Obl("C02.iterload.chunk0", "xh", "harness.c02", "iterload_chunk0", ["mdtraj.core.trajectory.iterload"], "total<=6, stride<=3, every skip, every atom subset of 3 or none",
+            "iterload(chunk=0) yields full[skip::stride] with the requested atoms (md.load stubbed by its contract)", 120, quick_pre="total <= 4"),
+        Obl("C02.iterload.pdb", "xh", "harness.c02", "iterload_pdb", ["mdtraj.core.trajectory.iterload"], "total<=6, chunk<=4, stride<=3, every skip",
+            "the PDB branch of iterload yields chunks of full[skip::stride] (md.load stubbed by its contract)", 150, quick_pre="total <= 4 and chunk <= 3 and stride <= 2"),
+    ]
     return o
 
 
